@@ -239,15 +239,39 @@ pub type Defs = Rc<HashMap<String, Def>>;
 
 pub trait K: AnyGoal<U, E> + Sized {
     fn from_bfs(g: Goal<U, E>) -> Self;
+    // the public binary-disjunction API of this goal kind: (disj new|vec|array|conjs clause...)
+    fn disj(variant: &str, clauses: Vec<Vec<Self>>) -> Self;
 }
 impl K for Goal<U, E> {
     fn from_bfs(g: Goal<U, E>) -> Self {
         g
     }
+    fn disj(variant: &str, b: Vec<Vec<Self>>) -> Self {
+        use proto_vulcan::operator::disj::Disj;
+        let gs: Vec<Goal<U, E>> = b.iter().map(|c| conj_arr::<Goal<U, E>>(c)).collect();
+        match variant {
+            "new" => Disj::new(gs[0].clone(), gs[1].clone()),
+            "vec" => Disj::from_vec(gs),
+            "array" => Disj::from_array(gs.as_slice()),
+            "conjs" => with_slices(&b, |s| Disj::from_conjunctions(s)),
+            _ => panic!("harness: bad disj variant"),
+        }
+    }
 }
 impl K for DFSGoal<U, E> {
     fn from_bfs(_g: Goal<U, E>) -> Self {
         panic!("harness: BFS-only operator inside dfs")
+    }
+    fn disj(variant: &str, b: Vec<Vec<Self>>) -> Self {
+        use proto_vulcan::operator::disj::DFSDisj;
+        let gs: Vec<DFSGoal<U, E>> = b.iter().map(|c| conj_arr::<DFSGoal<U, E>>(c)).collect();
+        match variant {
+            "new" => DFSDisj::new(gs[0].clone(), gs[1].clone()),
+            "vec" => DFSDisj::from_vec(gs),
+            "array" => DFSDisj::from_array(gs.as_slice()),
+            "conjs" => with_slices(&b, |s| DFSDisj::from_conjunctions(s)),
+            _ => panic!("harness: bad disj variant"),
+        }
     }
 }
 
@@ -403,17 +427,8 @@ pub fn build<G: K>(defs: &Defs, env: &Env, e: &Sexp) -> G {
                 }
                 "disj" => {
                     // the public binary-disjunction API (not what the macros expand conde to): (disj new|vec|array|conjs clause...)
-                    use proto_vulcan::operator::disj::Disj;
-                    let b = build_op_body::<Goal<U, E>>(defs, &env, &args[1..]);
-                    let gs: Vec<Goal<U, E>> = b.iter().map(|c| conj_arr::<Goal<U, E>>(c)).collect();
-                    let g = match args[0].atom() {
-                        "new" => Disj::new(gs[0].clone(), gs[1].clone()),
-                        "vec" => Disj::from_vec(gs),
-                        "array" => Disj::from_array(gs.as_slice()),
-                        "conjs" => with_slices(&b, |s| Disj::from_conjunctions(s)),
-                        _ => panic!("harness: bad disj variant"),
-                    };
-                    G::from_bfs(g)
+                    let b = build_op_body::<G>(defs, &env, &args[1..]);
+                    G::disj(args[0].atom(), b)
                 }
                 "conda" => {
                     let b = build_op_body::<Goal<U, E>>(defs, env, args);
